@@ -35,6 +35,8 @@ def inputs(tier):
     for d in corpus.cutouts(tier, radius=12.0):
         out.append(dict(src='corpus', d=d))
     out += [dict(i, chains='case-twins') for i in out if i['src'] == 'corpus' and i['d']['t'] in ('pair', 'cluster')][:: (1 if tier == 'thorough' else 3)]
+    # a chain called '_' next to a chain without identifier (which the program itself prints as '_')
+    out += [dict(i, chains='underscore-and-blank') for i in out if i['src'] == 'corpus' and i['d']['t'] in ('pair', 'cluster') and 'chains' not in i][:: (2 if tier == 'thorough' else 6)]
     for key in (('3SGB', '1HPX') if tier == 'quick' else ('3SGB', '1HPX', '4DFR')):
         out.append(dict(src='corpus', d=corpus.file_desc(key)))
     # multi-conformation inputs (the selected chain is completed from the other conformations)
@@ -63,6 +65,14 @@ def build(inp, seed):
             if a.chain not in ids:
                 ids.append(a.chain)
         m = dict(zip(ids, 'AaBbCcDdEeFfGg'))
+        for a in s.atoms:
+            a.chain = m[a.chain]
+    if s is not None and inp.get('chains') == 'underscore-and-blank':
+        ids = []
+        for a in s.atoms:
+            if a.chain not in ids:
+                ids.append(a.chain)
+        m = dict(zip(ids, '_ QRSTUVWXYZ'))
         for a in s.atoms:
             a.chain = m[a.chain]
     return s
